@@ -209,7 +209,7 @@ def worker(ctx):
             try:
                 comp = sut_compiler.compile_schema(root, d, ["go", "py"], rng=rng, emit_kw=dict(semi=0.3, comments=0.2, path_style="random"))
             except Exception as e:
-                res.count("skipped_compile_error")
+                harness.compile_failed(res, e, wit)
                 continue
             wit["schema"] = pycommon.describe(root, comp["paths"])
             try:
